@@ -665,7 +665,16 @@ impl<'e> Report<'e> {
                                     break;
                                 }
                                 let hi = (lo + block).min(len);
-                                space.eval_range(lo, hi, &mut out);
+                                // a panic here is a harness bug (implementation calls are wrapped by `call`)
+                                if catch_unwind(AssertUnwindSafe(|| space.eval_range(lo, hi, &mut out))).is_err() {
+                                    eprintln!(
+                                        "MACHINERY-ERROR: harness panicked in space {} at index {}: {}",
+                                        name,
+                                        out.index,
+                                        LAST_PANIC.with(|p| p.borrow().clone())
+                                    );
+                                    std::process::exit(2);
+                                }
                                 covered.fetch_add(hi - lo, Ordering::Relaxed);
                                 if t0.elapsed().as_secs_f64() > cap {
                                     stop.store(true, Ordering::Relaxed);
